@@ -208,7 +208,14 @@ pub fn component_states() -> Vec<State> {
         w.schema.comps.push(Comp::Complex(ComplexType { name: "LateBase".into(), seq: Some(Seq::of(vec![el("InLateBase", TypeRef::b("long"))])), attrs: vec![Attr { name: "lateAttr".into(), ty: TypeRef::b("string"), required: false, value_constraint: None }], ..Default::default() }));
         w.schema.comps.push(typed_element("LateSerial", TypeRef::b("unsignedLong")));
         w.schema.comps.push(anon_element("LateAnon", vec![el("InLateAnon", TypeRef::b("string"))]));
-        out.push(State { label: "add types with forward base= and ref= inside a WSDL-embedded schema".into(), depth: 1, set: s });
+        out.push(State { label: "add types with forward base= and ref= inside a WSDL-embedded schema".into(), depth: 1, set: s.clone() });
+        // the same document spelled with default namespaces: <definitions xmlns="…wsdl/"> and an inline
+        // schema under xmlns="<its target namespace>" with unprefixed type=, base= and ref=
+        s.wsdl.as_mut().unwrap().default_ns_style = true;
+        out.push(State { label: "add types with forward base= and ref= inside a WSDL-embedded schema, default-namespace spelling".into(), depth: 1, set: s });
+        let mut plain = crate::seeds::kitchen_wsdl();
+        plain.wsdl.as_mut().unwrap().default_ns_style = true;
+        out.push(State { label: "add kitchen WSDL in default-namespace spelling".into(), depth: 1, set: plain });
     }
     // default namespace = target namespace, references unprefixed, and the imported namespace
     // declares components with the SAME local names
